@@ -194,6 +194,10 @@ fn op_name(op: &EOp) -> &'static str {
         EOp::AffineMulFr(..) => "affine_mul_fr",
         EOp::AddAffine(..) => "add_affine",
         EOp::IntoGroup(_) => "into_group",
+        EOp::AddOtherRep(_) => "add_other_representative",
+        EOp::AddDecoded(_) => "add_decoded_copy",
+        EOp::Hash2Related(..) => "hash_to_curve_related_inputs",
+        EOp::ZeroizedCopyEncoded(_) => "zeroized_copy_encoded",
     }
 }
 
@@ -401,6 +405,40 @@ fn build(op: &EOp, pool: &[PoolEntry]) -> Built {
             Built {
                 same_as: src_index(*i),
                 ..plain(a.into_group())
+            }
+        }
+        EOp::AddOtherRep(i) => {
+            let p = get(*i);
+            let t = Element::GENERATOR + Element::GENERATOR * (-Fr::from(1u64));
+            plain(p + (p + t))
+        }
+        EOp::AddDecoded(i) => {
+            let p = get(*i);
+            match p.vartime_compress().vartime_decompress() {
+                Ok(q) => plain(&p + &q),
+                Err(_) => Built {
+                    none: true,
+                    ..plain(Element::IDENTITY)
+                },
+            }
+        }
+        EOp::Hash2Related(h, same) => {
+            let r = fq_from_hex(h);
+            plain(Element::hash_to_curve(&r, &(if *same { r } else { -r })))
+        }
+        EOp::ZeroizedCopyEncoded(i) => {
+            use zeroize::Zeroize;
+            use std::fmt::Write as _;
+            let p = get(*i);
+            let mut z = p;
+            z.zeroize();
+            // whatever a wiped value encodes to is not judged; it must not disturb later encodings
+            let _ = z.vartime_compress();
+            let mut sink = String::new();
+            let _ = write!(sink, "{}{:?}", z, z);
+            Built {
+                same_as: src_index(*i),
+                ..plain(p)
             }
         }
     }
@@ -848,7 +886,12 @@ fn build_field<F: SimField>(src: &FSrc, fpool: &[FEntry]) -> Option<(F, BigUint)
         }
         FSrc::Dec(s) => {
             let m = BigUint::parse_bytes(s.as_bytes(), 10)?;
-            (F::from_str(s).ok()?, m % &f.p)
+            match F::from_str(s) {
+                Ok(x) => (x, m % &f.p),
+                // a plain decimal numeral without sign or leading zeros must parse; report as a value that
+                // cannot equal the reference (the caller turns the mismatch into a violation)
+                Err(_) => std::panic::panic_any(format!("FromStr rejected the decimal string {:?}", s)),
+            }
         }
         FSrc::Big(s) => {
             let m = BigUint::parse_bytes(s.as_bytes(), 10)?;
